@@ -281,7 +281,9 @@ class TypeInfoVisitor(DispatchingVisitor):
     @property
     def parent_input_type(self) -> Optional[InputObjectType]:
         t = _peek(self._input_type_stack, 2)
-        return t if isinstance(t, InputObjectType) else None
+        # The parent input object can be wrapped (e.g. `In!`).
+        named_type = unwrap_type(t) if t is not None else None
+        return t if isinstance(named_type, InputObjectType) else None
 
     @property
     def field(self) -> Optional[Field]:
